@@ -66,7 +66,8 @@ func (p *Parsed) Root() ast.Node {
 	return p.Roots[0]
 }
 
-const FilePath = "verif.sql"
+// FilePath is the file path handed to every entry point; only the sequential C20 path phase changes it.
+var FilePath = "verif.sql"
 
 // callSUT runs f and converts a panic into a value; only memefish code runs inside f.
 func callSUT(f func()) (pv any, stack string) {
